@@ -1,2 +1,344 @@
-use mina_verif::util::Run;
-pub fn run(_run: &mut Run) {}
+//! C19 — bevy selector / chain: key changes blend smoothly and chains advance on end.
+//!
+//! Online checker of a trace specification with a small set of candidate model states. The
+//! systems `chain_animations` and `select_animation` are mutually unordered in mina's
+//! registration, and the statement leaves one race open (an explicit key assignment landing between
+//! an animation's end and the chain's reaction), so each frame is explained by *some* combination
+//! of (system order, race outcome); a frame that no combination explains is a violation.
+
+use crate::c18::{events_match, snap, AMon, Snap};
+use crate::sim::*;
+use bevy::prelude::*;
+use bevy::utils::{Duration, HashMap};
+use bevy_mina::prelude::*;
+use mina::prelude::*;
+use mina_verif::util::*;
+
+#[derive(Clone, Copy, Debug, PartialEq)]
+enum Op {
+    Nop,
+    Assign(Key),
+}
+
+#[derive(Clone, Debug)]
+struct Config {
+    /// timelines of Idle, Go, Done (NoTl never has one)
+    tls: [TlDesc; 3],
+    chain: Option<Vec<(Key, Key)>>,
+    two: bool,
+    dv: TlDesc,
+    name: String,
+}
+
+fn key_tl(cfg: &Config, k: Key) -> Option<&TlDesc> {
+    match k {
+        Key::Idle => Some(&cfg.tls[0]),
+        Key::Go => Some(&cfg.tls[1]),
+        Key::Done => Some(&cfg.tls[2]),
+        Key::NoTl => None,
+    }
+}
+
+fn configs() -> Vec<Config> {
+    let t = |delay: f32, cycle: f32, repeat: Repeat, reverse: bool, variant: u32| TlDesc { delay, cycle, repeat, reverse, variant };
+    let set_a = [t(0.25, 1.0, Repeat::None, false, 0), t(0.0, 0.125, Repeat::None, false, 1), t(0.125, 0.25, Repeat::Times(1), false, 2)];
+    let set_b = [t(0.0, 0.125, Repeat::None, false, 2), t(1.0, 0.5, Repeat::None, true, 0), t(0.0, 1.0, Repeat::Infinite, false, 1)];
+    let dv_short = t(0.0, 0.125, Repeat::None, false, 0);
+    let dv_long = t(0.0, 64.0, Repeat::Times(3), false, 0);
+    let chains: Vec<(&str, Option<Vec<(Key, Key)>>)> = vec![
+        ("no-chain", None),
+        ("go->done", Some(vec![(Key::Go, Key::Done)])),
+        ("cycle", Some(vec![(Key::Go, Key::Done), (Key::Done, Key::Go)])),
+        ("selfloop+idle->go", Some(vec![(Key::Go, Key::Go), (Key::Idle, Key::Go)])),
+        ("via-notl", Some(vec![(Key::NoTl, Key::Idle), (Key::Done, Key::NoTl), (Key::Idle, Key::Done)])),
+    ];
+    let mut v = Vec::new();
+    for (si, set) in [set_a, set_b].iter().enumerate() {
+        for (cn, ch) in &chains {
+            for two in [false, true] {
+                for (dn, dv) in [("dv-short", &dv_short), ("dv-long", &dv_long)] {
+                    if !two && dn == "dv-long" {
+                        continue;
+                    }
+                    v.push(Config { tls: set.clone(), chain: ch.clone(), two, dv: dv.clone(), name: format!("set{}|{cn}|{}", ["A", "B"][si], if two { dn } else { "one-component" }) });
+                }
+            }
+        }
+    }
+    v
+}
+
+/// One candidate explanation of the history so far.
+struct Cand {
+    /// last key the selector acted on
+    acted: Option<Key>,
+    /// key whose timeline the governed animator holds (None = no timeline)
+    play: Option<Key>,
+    mon: AMon<Cv>,
+    /// the governed animator went to Ended in the previous frame while playing this key
+    pending_gov: Option<Key>,
+}
+
+impl Cand {
+    fn dup(&self) -> Cand {
+        Cand {
+            acted: self.acted,
+            play: self.play,
+            mon: AMon { twin: self.mon.twin.clone(), desc: self.mon.desc.clone(), run_valid: self.mon.run_valid, ended_in_run: self.mon.ended_in_run },
+            pending_gov: self.pending_gov,
+        }
+    }
+    fn ident(&self, start_bits: &[u64]) -> String {
+        format!("{:?}|{:?}|{:?}|{:?}", self.acted, self.play, self.pending_gov, start_bits)
+    }
+}
+
+const STREAM_EXH: u64 = 1;
+const STREAM_RND: u64 = 2;
+
+fn run_history(sim: &mut Sim, cfg: &Config, steps: &[(Op, usize)], acc: &mut Acc, stream: u64, index: u64, verbose: bool) {
+    let init = Cv { x: 3.0, y: 11.0, n: 77 };
+    let mut tls: HashMap<Key, Box<dyn SafeTimeline<Target = Cv>>> = HashMap::new();
+    for k in [Key::Idle, Key::Go, Key::Done] {
+        tls.insert(k, Box::new(key_tl(cfg, k).unwrap().build_cv()));
+    }
+    let e = sim.app.world.spawn((init.clone(), Animator::<Cv>::new(), AnimationSelector::<Key, Cv>::new(tls, Key::Idle))).id();
+    if let Some(ch) = &cfg.chain {
+        let mut b = AnimationChainBuilder::<Key>::new();
+        for (a, c) in ch {
+            b = b.add(*a, *c);
+        }
+        sim.app.world.entity_mut(e).insert(b.build());
+    }
+    if cfg.two {
+        sim.app.world.entity_mut(e).insert((Dv { z: 0.5 }, Animator::<Dv>::with_timeline(cfg.dv.build_dv())));
+    }
+    let chain_of = |k: Key| -> Option<Key> { cfg.chain.as_ref().and_then(|c| c.iter().find(|(a, _)| *a == k).map(|(_, b)| *b)) };
+    let mut mon2 = AMon::<Dv> { twin: Some(Box::new(cfg.dv.build_dv())), desc: Some(cfg.dv.clone()), run_valid: true, ended_in_run: 0 };
+    let mut cands: Vec<Cand> = vec![Cand { acted: None, play: None, mon: AMon { twin: None, desc: None, run_valid: true, ended_in_run: 0 }, pending_gov: None }];
+    let mut other_ended_prev = false;
+    let case = |k: usize, what: &str| {
+        case_json(stream, index, vec![
+            ("configuration", J::s(cfg.name.clone())),
+            ("key_timelines", J::A(cfg.tls.iter().map(|t| t.json()).collect())),
+            ("chain", J::s(format!("{:?}", cfg.chain))),
+            ("second_animated_component", if cfg.two { cfg.dv.json() } else { J::Null }),
+            ("steps", J::A(steps.iter().map(|(o, d)| J::s(format!("{:?} ; frame {:?}", o, DELTAS[*d]))).collect())),
+            ("failing_frame", J::U(k as u64)), ("clause", J::s(what)),
+        ])
+    };
+    let mut ok = true;
+    for (k, (op, di)) in steps.iter().enumerate() {
+        if let Op::Assign(key) = op {
+            let mut s = sim.app.world.get_mut::<AnimationSelector<Key, Cv>>(e).unwrap();
+            s.timeline_key = *key;
+        }
+        let key_now = sim.app.world.get::<AnimationSelector<Key, Cv>>(e).unwrap().timeline_key;
+        let pre = snap::<Cv>(sim, e);
+        let pre2 = if cfg.two { Some(snap::<Dv>(sim, e)) } else { None };
+        let (delta, evs) = sim.frame(DELTAS[*di]);
+        let post = snap::<Cv>(sim, e);
+        let key_post = sim.app.world.get::<AnimationSelector<Key, Cv>>(e).unwrap().timeline_key;
+        let mine: Vec<AnimationState> = evs.iter().filter(|(en, _)| *en == e).map(|(_, s)| *s).collect();
+        acc.eval();
+        // the second animator is an ordinary C18 animator; it also tells us whether "some other
+        // animator on the entity ended" in this frame
+        let mut expected_other: Vec<AnimationState> = Vec::new();
+        let mut other_ended_now = false;
+        if let Some(pre2) = &pre2 {
+            let post2 = snap::<Dv>(sim, e);
+            match mon2.frame(pre2, &post2, delta) {
+                Ok(ev) => {
+                    other_ended_now = ev == Some(AnimationState::Ended);
+                    expected_other.extend(ev);
+                }
+                Err((key, msg)) => {
+                    acc.violation(format!("c19:other-animator:{key}"), format!("second animated component, frame {k}: {msg}"), case(k, &key));
+                    ok = false;
+                    break;
+                }
+            }
+        }
+        // explore the explanations
+        let mut next: Vec<Cand> = Vec::new();
+        let mut seen: Vec<String> = Vec::new();
+        let mut failures: Vec<(bool, String, String)> = Vec::new(); // (key matched?, key, message)
+        for c in &cands {
+            // what may the chain do to a key `kk` in this frame?
+            let outcomes = |kk: Key| -> Vec<Key> {
+                match c.pending_gov.and_then(|ke| chain_of(ke).map(|kn| (ke, kn))) {
+                    Some((ke, kn)) => {
+                        if kk == ke { vec![kn] } else { vec![kk, kn] }
+                    }
+                    None => vec![kk],
+                }
+            };
+            for order_cs in [true, false] {
+                for key1 in outcomes(key_now) {
+                    let sel_key = if order_cs { key1 } else { key_now };
+                    let happened = c.acted != Some(sel_key);
+                    if key_post != key1 {
+                        failures.push((false, "key".into(), format!("selector key is {:?} after the frame; explanation (order {}, chain outcome {:?}) requires {:?}", key_post, if order_cs { "chain,select" } else { "select,chain" }, key1, key1)));
+                        continue;
+                    }
+                    let mut n = c.dup();
+                    n.pending_gov = None;
+                    let res = if happened {
+                        n.acted = Some(sel_key);
+                        match key_tl(cfg, sel_key) {
+                            Some(desc) => {
+                                let mut tw = desc.build_cv();
+                                tw.start_with(&pre.comp);
+                                n.play = Some(sel_key);
+                                n.mon = AMon { twin: Some(Box::new(tw)), desc: Some(desc.clone()), run_valid: true, ended_in_run: 0 };
+                                // the selector reset the animator before `animate` ran
+                                let pre_reset = Snap { state: AnimationState::None, pos: Duration::ZERO, enabled: pre.enabled, comp: pre.comp.clone() };
+                                n.mon.frame(&pre_reset, &post, delta)
+                            }
+                            None => {
+                                n.play = None;
+                                n.mon = AMon { twin: None, desc: None, run_valid: true, ended_in_run: 0 };
+                                if post.state != AnimationState::None || post.pos != Duration::ZERO || !same(&post.comp, &pre.comp) {
+                                    Err(("key-without-timeline".to_string(), format!("key {:?} has no timeline: expected state None, position 0 and an untouched component; observed {:?}, {:?}, {:?} -> {:?}", sel_key, post.state, post.pos, pre.comp, post.comp)))
+                                } else {
+                                    Ok(None)
+                                }
+                            }
+                        }
+                    } else {
+                        n.mon.frame(&pre, &post, delta)
+                    };
+                    match res {
+                        Err((key, msg)) => failures.push((true, key, format!("[explanation: order {}, selection {}] {msg}", if order_cs { "chain,select" } else { "select,chain" }, if happened { format!("of {:?}", sel_key) } else { "none".into() }))),
+                        Ok(ev) => {
+                            let mut expected = expected_other.clone();
+                            expected.extend(ev);
+                            if !events_match(&expected, &mine) {
+                                failures.push((true, "events".into(), format!("events {:?} sent, {:?} required", mine, expected)));
+                                continue;
+                            }
+                            if ev == Some(AnimationState::Ended) {
+                                n.pending_gov = n.play;
+                            }
+                            let id = n.ident(&n.mon.twin.as_ref().map(|t| { let mut z = Cv::default(); t.update(&mut z, -1.0); z.bits() }).unwrap_or_default());
+                            if !seen.contains(&id) {
+                                seen.push(id);
+                                next.push(n);
+                            }
+                        }
+                    }
+                }
+            }
+        }
+        if verbose {
+            println!("  frame {k}: {:?} dt {:?} key {:?}->{:?} | {:?} {:?} {:?} -> {:?} {:?} {:?} events {:?} | explanations {}", op, delta, key_now, key_post, pre.state, pre.pos, pre.comp, post.state, post.pos, post.comp, mine, next.len());
+        }
+        if next.is_empty() {
+            // report the most specific failure: prefer explanations whose key matched
+            failures.sort_by_key(|f| !f.0);
+            let (matched, key, msg) = failures.first().cloned().unwrap_or((false, "none".into(), "no explanation".into()));
+            let unexplained_key = !matched;
+            let reason = if unexplained_key {
+                let by_other = other_ended_prev && cands.iter().all(|c| c.pending_gov.is_none());
+                if key_post != key_now && by_other { "chain-fired-for-other-animator" } else if key_post != key_now { "unexplained-key-change" } else { "chain-did-not-fire" }
+            } else {
+                key.as_str()
+            };
+            acc.violation(
+                format!("c19:{reason}"),
+                format!("frame {k} ({:?}, frame of {:?}, key {:?} before): {msg}", op, delta, key_now),
+                case(k, reason),
+            );
+            ok = false;
+            break;
+        }
+        // coverage
+        for n in &next {
+            let kind = if n.acted != cands[0].acted || cands.iter().all(|c| c.acted != n.acted) { "selection" } else { "steady" };
+            acc.sig(format!("{}|{kind}|{:?}->{:?}|{}->{}|op={}|chain-pending={}|other-ended={}", cfg.name, key_now, key_post, state_name(pre.state), state_name(post.state), matches!(op, Op::Assign(_)), cands.iter().any(|c| c.pending_gov.is_some()), other_ended_prev));
+        }
+        cands = next;
+        other_ended_prev = other_ended_now;
+    }
+    if ok && index % 4999 == 0 {
+        acc.sample(3, || case(steps.len(), "every frame explained by the selector/chain specification"));
+    }
+    sim.app.world.despawn(e);
+}
+
+pub fn run(run: &mut Run) {
+    let thorough = run.thorough();
+    let depth = if thorough { 5 } else { 4 };
+    run.rule = format!(
+        "real bevy App with register_animation_key::<Cv, Key>() under 4 registration orders; entities with Animator + \
+        AnimationSelector (keys Idle/Go/Done with timelines, NoTl without), optionally AnimationChain (none, go->done, a cycle, \
+        self-loop + idle->go, via a key without timeline) and optionally a second animated component with its own Animator (short or \
+        long timeline); ALL histories of length {depth} (quick: on 6 of the configurations, length {} on all) over {{no-op, assign Idle/Go/Done/NoTl}} x frame deltas {{0, 1/512 s, 1/8 s, 64 s}} \
+        for each of 30 configurations plus random histories of 30-120 frames; every frame must be explained by the specification \
+        (selection iff key differs from the key last acted on: animator restarts from 0, component does not jump, then follows the \
+        new timeline started from the values at the switch; key without timeline => state None and component untouched; re-assigning \
+        the current key => nothing; the key only changes by itself when the governed Animator ended in the previous frame with key \
+        k and chain[k] exists) under some (system order, race outcome); non-trivial = a frame with a selection, a chain reaction or a \
+        pending Ended event; distinct = (configuration, selection/steady, key before/after, animator transition, explicit op?, chain \
+        pending?, other animator ended?)",
+        depth - 1
+    );
+    run.assumptions = vec![
+        "chain_animations and select_animation are mutually unordered in mina's registration: either order is a legitimate schedule".into(),
+        "if an explicit assignment lands between an animation's end and the chain's reaction, both 'stays' and 'becomes chain[k]' are accepted".into(),
+    ];
+    run.min_sigs = 60;
+    let seed = run.seed;
+    let rc = run.replay_case();
+    let verbose = rc.is_some();
+    let cfgs = configs();
+    // quick: full depth only on a spread of 6 configurations, depth-1 histories on all of them
+    let deep: Vec<usize> = if thorough { (0..cfgs.len()).collect() } else { vec![3, 7, 10, 13, 22, 28] };
+    let per = 20u64.pow(depth as u32);
+    let per_shallow = 20u64.pow(depth as u32 - 1);
+    let n_deep = per * deep.len() as u64;
+    let n_exh = n_deep + if thorough { 0 } else { per_shallow * cfgs.len() as u64 };
+    let n_rnd: u64 = if thorough { 40_000 } else { 2_000 };
+    run.extra.push(("configurations".into(), J::U(cfgs.len() as u64)));
+    run.extra.push(("exhaustive_histories".into(), J::U(n_exh)));
+    let ops = [Op::Nop, Op::Assign(Key::Idle), Op::Assign(Key::Go), Op::Assign(Key::Done), Op::Assign(Key::NoTl)];
+    run.parallel(|w, nw, acc| {
+        let mut sims: Vec<Sim> = (0..4).map(|o| Sim::new(o)).collect();
+        for i in my_cases(rc, STREAM_EXH, n_exh, w, nw) {
+            let (cfg, mut x, dep) = if i < n_deep {
+                (&cfgs[deep[(i / per) as usize]], i % per, depth)
+            } else {
+                let j = i - n_deep;
+                (&cfgs[(j / per_shallow) as usize], j % per_shallow, depth - 1)
+            };
+            let steps: Vec<(Op, usize)> = (0..dep)
+                .map(|_| {
+                    let k = (x % 20) as usize;
+                    x /= 20;
+                    (ops[k / 4], k % 4)
+                })
+                .collect();
+            guarded(acc, "c19", STREAM_EXH, i, |acc| run_history(&mut sims[(i % 4) as usize], cfg, &steps, acc, STREAM_EXH, i, verbose));
+        }
+        for i in my_cases(rc, STREAM_RND, n_rnd, w, nw) {
+            let mut r = Rng::derive(seed, STREAM_RND, i);
+            let cfg = &cfgs[r.usize(cfgs.len())];
+            let len = 30 + r.usize(91);
+            let steps: Vec<(Op, usize)> = (0..len)
+                .map(|_| {
+                    let op = if r.chance(1, 4) { ops[1 + r.usize(4)] } else { Op::Nop };
+                    let d = match r.below(10) {
+                        0 => 0,
+                        1 | 2 => 1,
+                        9 => 3,
+                        _ => 2,
+                    };
+                    (op, d)
+                })
+                .collect();
+            let o = r.usize(4);
+            guarded(acc, "c19", STREAM_RND, i, |acc| run_history(&mut sims[o], cfg, &steps, acc, STREAM_RND, i, verbose));
+        }
+    });
+    run.exhaustive = Some(false);
+}
